@@ -234,7 +234,9 @@ func runC15(r *core.Run) {
 		name  string
 	}
 	deep := []string{"", "a", "aa", "aaa", "aaaa", "aaaaa", "aab", "aabb", "aabba", "ab", "abab", "b", "ba"}
-	cfgs := []cfg{{"ab", 3, nil, "bfs-ab-len3"}, {"abc", 2, nil, "bfs-abc-len2"}, {"ab", 5, deep, "bfs-deep-words"}}
+	long := []string{"a", strings.Repeat("a", 7), strings.Repeat("a", 8), strings.Repeat("a", 9), strings.Repeat("a", 8) + "b", strings.Repeat("a", 17), strings.Repeat("a", 33),
+		strings.Repeat("ab", 33), strings.Repeat("b", 65), strings.Repeat("b", 64) + "a", "b" + strings.Repeat("a", 130)}
+	cfgs := []cfg{{"ab", 3, nil, "bfs-ab-len3"}, {"abc", 2, nil, "bfs-abc-len2"}, {"ab", 5, deep, "bfs-deep-words"}, {"ab", 131, long, "bfs-long-words"}}
 	if r.Thorough() {
 		cfgs = append(cfgs, cfg{"ab", 4, nil, "bfs-ab-len4"})
 	}
